@@ -27,6 +27,7 @@ type Opt struct {
 	Tags     []string
 	Disabled bool
 	Plain    bool
+	Nums     []float64
 }
 
 // Outcome is what one Next call must return.
@@ -35,6 +36,7 @@ type Outcome struct {
 	Node  string
 	Text  string
 	Plain bool // Text can be compared literally (no number outside the plain display zone)
+	Nums  []float64 // the numbers marked in Text when !Plain
 	Tags  []string
 	Opts  []Opt
 	Why   string // for OErr: the model's reason (for humans only)
@@ -192,9 +194,12 @@ func (m *Machine) Leftover() int {
 	return n
 }
 
-func (m *Machine) text(parts []hast.Part) (string, bool, error) {
+// numMark brackets the index of a number that is outside the plain display zone.
+const numMark = "\x00"
+
+func (m *Machine) text(parts []hast.Part) (string, []float64, error) {
 	var b strings.Builder
-	plain := true
+	var nums []float64
 	for _, p := range parts {
 		if p.X == nil {
 			b.WriteString(p.Out)
@@ -202,15 +207,52 @@ func (m *Machine) text(parts []hast.Part) (string, bool, error) {
 		}
 		v, err := m.env.Eval(p.X)
 		if err != nil {
-			return "", false, err
+			return "", nil, err
 		}
 		s, pl := Display(v)
 		if !pl {
-			plain = false
+			b.WriteString(numMark + strconv.Itoa(len(nums)) + numMark)
+			nums = append(nums, v.N)
+			continue
 		}
 		b.WriteString(s)
 	}
-	return strings.TrimFunc(b.String(), unicode.IsSpace), plain, nil
+	return strings.TrimFunc(b.String(), unicode.IsSpace), nums, nil
+}
+
+// TextMatches decides whether got is an acceptable rendering of a text pattern
+// produced by the model: literal parts must match exactly, and each marked number
+// must be printed in a form CheckNumberText accepts.
+func TextMatches(pattern string, nums []float64, got string) bool {
+	if len(nums) == 0 {
+		return pattern == got
+	}
+	parts := strings.Split(pattern, numMark)
+	// parts alternate: literal, index, literal, index, …, literal
+	var re strings.Builder
+	re.WriteString("^")
+	for i, p := range parts {
+		if i%2 == 0 {
+			re.WriteString(regexp.QuoteMeta(p))
+		} else {
+			re.WriteString(`([-+]?(?:[0-9][0-9.]*(?:[eE][-+]?[0-9]+)?|Inf|NaN|inf|nan|Infinity|∞))`)
+		}
+	}
+	re.WriteString("$")
+	rx, err := regexp.Compile(re.String())
+	if err != nil {
+		return false
+	}
+	mt := rx.FindStringSubmatch(got)
+	if mt == nil {
+		return false
+	}
+	for i, x := range nums {
+		if !CheckNumberText(x, mt[i+1]) {
+			return false
+		}
+	}
+	return true
 }
 
 func (m *Machine) fail(err error, s *hast.Stmt) Outcome {
@@ -261,15 +303,15 @@ func (m *Machine) Next(choice int) Outcome {
 		}
 		switch s.K {
 		case hast.SLine:
-			t, plain, err := m.text(s.Parts)
+			t, nums, err := m.text(s.Parts)
 			if err != nil {
 				return m.fail(err, s)
 			}
-			return Outcome{Kind: OLine, Node: m.Cur, Text: t, Plain: plain, Tags: s.Tags, Stmt: s}
+			return Outcome{Kind: OLine, Node: m.Cur, Text: t, Plain: len(nums) == 0, Nums: nums, Tags: s.Tags, Stmt: s}
 		case hast.SOptions:
 			out := Outcome{Kind: OOptions, Node: m.Cur, Stmt: s}
 			for _, o := range s.Options {
-				t, plain, err := m.text(o.Parts)
+				t, nums, err := m.text(o.Parts)
 				if err != nil {
 					return m.fail(err, s)
 				}
@@ -284,7 +326,7 @@ func (m *Machine) Next(choice int) Outcome {
 					}
 					dis = !v.B
 				}
-				out.Opts = append(out.Opts, Opt{Text: t, Tags: o.Tags, Disabled: dis, Plain: plain})
+				out.Opts = append(out.Opts, Opt{Text: t, Tags: o.Tags, Disabled: dis, Plain: len(nums) == 0, Nums: nums})
 			}
 			m.waiting = s
 			return out
